@@ -109,10 +109,11 @@ CLAIMED["C05"] = dict(
          "of C09 (incl. the merged root metadata bundle, mdBody_ok) keep the file valid, so validity is an invariant of any sequence "
          "of such saves; C05_detector — on a valid file the package's detector says EMD, the version query (1,0,0), and the version "
          "helper accepts it.",
-    note="PARTIAL: (1) for targeted appends validity is checked by the correspondence only (independent h5py-only validator on the "
-         "real file vs. Lean validFile on the model file after every save of every history); (2) the per-class body validity "
-         "(infoOK) is a hypothesis at this level, discharged for the codecs in C02-C04; dim-vector lengths (2 or extent) are "
-         "checked by the Python validator only because data are opaque tokens in the tree-level model.",
+    note="(1) C05_replace_root / C05_target_new_branch cover rewriting a root group into ANY valid tree and one targeted leaf; for "
+         "the other targeted leaves validity is checked by the correspondence (independent h5py-only validator on the real file vs. "
+         "Lean validFile on the model file after every save of every history); (2) the per-class body validity (infoOK) is a "
+         "hypothesis at tree level and is discharged for the codecs: C05_array_body_ok, C05_metadata_entry_ok, C05_array_node_ok; "
+         "dim-vector lengths (2 or extent) are C02_stored_length.",
     technique="Lean 4 invariant proof over a decidable validator + differential correspondence against an independent h5py validator",
     design="7 C05")
 
